@@ -242,3 +242,33 @@ def canon(fn: ast.AST) -> str:
                 n.annotation = ast.Name(id="T", ctx=ast.Load())
     out = _Canon(local).visit(fn)
     return norm(ast.fix_missing_locations(out))
+
+
+def truth_table(expr: ast.AST, atom_of, n_atoms: int):
+    """Evaluate a boolean expression (and/or/not over atoms) on every assignment of ``n_atoms`` atoms.
+    ``atom_of(node)`` returns (index, polarity) for an atomic sub-expression or None.  Returns the tuple of results
+    (in itertools.product([False, True], repeat=n) order) or the text of the first unmodelled atom."""
+    import itertools
+
+    class Unmodelled(Exception):
+        pass
+
+    def ev(e, env):
+        if isinstance(e, ast.BoolOp):
+            vals = [ev(v, env) for v in e.values]
+            return all(vals) if isinstance(e.op, ast.And) else any(vals)
+        if isinstance(e, ast.UnaryOp) and isinstance(e.op, ast.Not):
+            return not ev(e.operand, env)
+        a = atom_of(e)
+        if a is None:
+            raise Unmodelled(norm(e))
+        i, pol = a
+        return env[i] if pol else not env[i]
+
+    out = []
+    try:
+        for env in itertools.product([False, True], repeat=n_atoms):
+            out.append(ev(expr, env))
+    except Unmodelled as u:
+        return str(u)
+    return tuple(out)
